@@ -522,6 +522,8 @@ func (fr *Frame) execBuiltin(st *State, b *ssa.Builtin, cc *ssa.CallCommon, inst
 		fr.mapDelete(st, m.Term(), mt, cc.Args[0].Type(), k)
 		return nil
 	case "close":
+		// "callsite close:" / "oncall close:" hooks: arg0 is the channel being closed
+		fr.callHooks(st, "close", []Val{arg(0)}, pos)
 		return nil
 	case "print", "println":
 		return nil
